@@ -1,6 +1,6 @@
 use crate::diagnostic_emitter::MosResult;
 use crate::impl_request_handler;
-use crate::lsp::{to_range, LspContext, RequestHandler};
+use crate::lsp::{document_path, to_range, LspContext, RequestHandler};
 use crate::test_runner::enumerate_test_cases;
 use lsp_types::request::CodeLensRequest;
 use lsp_types::{CodeLens, CodeLensParams, Command};
@@ -15,11 +15,11 @@ impl RequestHandler<CodeLensRequest> for CodeLensRequestHandler {
         ctx: &mut LspContext,
         params: CodeLensParams,
     ) -> MosResult<Option<Vec<CodeLens>>> {
-        let tests = enumerate_test_cases(
-            ctx.parsing_source(),
-            &params.text_document.uri.to_file_path().unwrap(),
-        )
-        .unwrap_or_default();
+        let path = match document_path(&params.text_document.uri) {
+            Some(path) => path,
+            None => return Ok(None),
+        };
+        let tests = enumerate_test_cases(ctx.parsing_source(), &path).unwrap_or_default();
 
         let result = tests
             .into_iter()
